@@ -8,6 +8,7 @@ mod bddx;
 mod c05;
 mod c06_07;
 mod c11;
+mod c12;
 mod c13;
 mod c14;
 mod cli;
@@ -24,13 +25,31 @@ mod store;
 
 use report::*;
 
+
+pub fn replay_dispatch(prop: &str, case: &serde_json::Value) -> Vec<(String, String)> {
+    match prop {
+        "C01" | "C02" | "C03" | "C04" => sem::replay_sem(prop, case),
+        "C05" => c05::replay(case),
+        "C06" | "C07" => c06_07::replay(prop, case),
+        "C11" => c11::replay(case),
+        "C13" => c13::replay(case),
+        "C14" => c14::replay(case),
+        "C18" => c18::replay(case),
+        #[cfg(feature = "frontend")]
+        "C19" => c19::replay(case),
+        "C20" => c20::replay(case),
+        "C12" => c12::replay(case),
+        _ => machinery_error("replay: unknown property"),
+    }
+}
+
 fn arg_after(args: &[String], key: &str) -> Option<String> {
     args.iter().position(|a| a == key).and_then(|i| args.get(i + 1).cloned())
 }
 
 fn main() {
     let args: Vec<String> = std::env::args().collect();
-    if args.len() < 3 {
+    if args.len() < 2 || (args.len() < 3 && args[1] != "featdigest") {
         machinery_error("usage: adfmc check <ID> [--tier quick|thorough] [--seed N] | adfmc replay <file>");
     }
     silence_panics();
@@ -56,6 +75,7 @@ fn main() {
                 "C06" => c06_07::run_c06(&run),
                 "C07" => c06_07::run_c07(&run),
                 "C11" => c11::run_c11(&run),
+                "C12" => c12::run_c12(&run),
                 "C13" => c13::run_c13(&run),
                 "C14" => c14::run_c14(&run),
                 "C18" => c18::run_c18(&run),
@@ -66,26 +86,17 @@ fn main() {
             }
             run.finish();
         }
+        "featdigest" => {
+            let tier = if arg_after(&args, "--tier").as_deref() == Some("thorough") { Tier::Thorough } else { Tier::Quick };
+            let seed: u64 = arg_after(&args, "--seed").and_then(|s| s.parse().ok()).unwrap_or(0);
+            c12::featdigest(tier, seed);
+        }
         "replay" => {
             let text = std::fs::read_to_string(&args[2]).unwrap_or_else(|_| machinery_error("cannot read replay file"));
             let rec: serde_json::Value = serde_json::from_str(&text).unwrap_or_else(|_| machinery_error("replay file is not JSON"));
             let prop = rec["property"].as_str().unwrap_or("").to_string();
             let case = &rec["case"];
-            let once = |_: usize| -> Vec<(String, String)> {
-                match prop.as_str() {
-                    "C01" | "C02" | "C03" | "C04" => sem::replay_sem(&prop, case),
-                    "C05" => c05::replay(case),
-                    "C06" | "C07" => c06_07::replay(&prop, case),
-                    "C11" => c11::replay(case),
-                    "C13" => c13::replay(case),
-                    "C14" => c14::replay(case),
-                    "C18" => c18::replay(case),
-                    #[cfg(feature = "frontend")]
-                    "C19" => c19::replay(case),
-                    "C20" => c20::replay(case),
-                    _ => machinery_error("replay: unknown property"),
-                }
-            };
+            let once = |_: usize| -> Vec<(String, String)> { replay_dispatch(&prop, case) };
             let a = once(0);
             let b = once(1);
             if a != b {
